@@ -15,6 +15,7 @@ import (
 	"os"
 	"reflect"
 	"strings"
+	"sync"
 	"time"
 
 	"github.com/hashicorp/eventlogger"
@@ -128,6 +129,48 @@ func Run(file string, seed int64, conc int) (*Report, error) {
 		if len(rep.Samples) < 4 && rep.Vectors%997 == 5 {
 			rep.Samples = append(rep.Samples, v)
 		}
+	}
+	// fresh ids stay unique when events are formatted concurrently
+	rep.Runs++
+	var mu sync.Mutex
+	seen := map[string]int{}
+	var wg sync.WaitGroup
+	src, _ := url.Parse("https://example.com/ids")
+	ffc := &cloudevents.FormatterFilter{Source: src}
+	for g := 0; g < 16; g++ {
+		wg.Add(1)
+		go func() {
+			defer wg.Done()
+			local := make([]string, 0, 12000)
+			for i := 0; i < 12000; i++ {
+				e := &eventlogger.Event{Type: "t", CreatedAt: time.Now(), Payload: "p", Formatted: map[string][]byte{}}
+				if _, err := ffc.Process(context.Background(), e); err != nil {
+					continue
+				}
+				b, _ := e.Format(string(cloudevents.FormatJSON))
+				var ce cloudevents.Event
+				if json.Unmarshal(b, &ce) == nil {
+					local = append(local, ce.ID)
+				}
+			}
+			mu.Lock()
+			for _, id := range local {
+				seen[id]++
+			}
+			mu.Unlock()
+		}()
+	}
+	wg.Wait()
+	dups := 0
+	ex := ""
+	for id, n := range seen {
+		if n > 1 {
+			dups++
+			ex = id
+		}
+	}
+	if dups > 0 {
+		rep.mm(Mismatch{What: "generated cloudevent ids are not unique under concurrent formatting", Vector: "16 goroutines x 12000 events without ID()", Expected: "all distinct", Observed: fmt.Sprintf("%d ids handed out more than once (e.g. %q)", dups, ex)})
 	}
 	return rep, sc.Err()
 }
